@@ -1183,3 +1183,26 @@ _mk_boavizta("update_ram", ("verbose", "memory", "value"), "GB", DIMLESS)
 _mk_boavizta("update_compute", ("verbose", "vcpu", "value"), "cpu_core", CPU)
 _mk_boavizta("update_power", ("verbose", "avg_power", "value"), "W", W.POWER)
 _mk_boavizta("update_carbon_footprint_fabrication", ("impacts", "gwp", "embedded", "value"), "kg", W.MASS)
+
+
+# =====================================================================================================================
+# JobBase.update_*_across_usage_patterns: the attribute is the across-patterns sum of the right per-pattern dictionary
+# =====================================================================================================================
+LOOP_SPECS["efootprint.core.usage.job.JobBase.sum_calculated_attribute_across_usage_patterns"] = _across_loops()
+
+
+def _mk_across_update(attr, per_up):
+    def spec(I, g):
+        ups = g.lst("usage_patterns")
+        d = g.raw(per_up)
+        return FoldMV(I, f"across[{per_up}]", lambda j: mv_of(d.get(I, ups.elem(j))), DIMLESS).at(ups.n)
+    spec.__doc__ = f"{attr}(t) = sum over the job's usage patterns of {per_up}[pattern](t)   (each pattern once, by timestamp)"
+    UPDATE_SPECS[("JobBase", f"update_{attr}")] = Spec("JobBase", f"update_{attr}", attr=attr, spec=spec)
+    CONCRETE[("JobBase", f"update_{attr}")] = ["Job"]
+
+
+for _a, _d in (("hourly_occurrences_across_usage_patterns", "hourly_occurrences_per_usage_pattern"),
+               ("hourly_avg_occurrences_across_usage_patterns", "hourly_avg_occurrences_per_usage_pattern"),
+               ("hourly_data_transferred_across_usage_patterns", "hourly_data_transferred_per_usage_pattern"),
+               ("hourly_data_stored_across_usage_patterns", "hourly_data_stored_per_usage_pattern")):
+    _mk_across_update(_a, _d)
